@@ -125,8 +125,8 @@ def _job(job):
         names = cpp_names_of(it[1], home, cls[3])
     # another class with the same C++ name elsewhere in the module would also be ignored: skip
     allnames = [c for c, h, o in pc_named(it[1])]
-    if any(allnames.count(n) > 1 for n in names):
-        return ('skip', 'duplicate-name')
+    if any(allnames.count(n) > 1 for n in names) and not typedef_site:
+        return ('skip', 'duplicate-name')        # (the crafted module has no such duplicate unless a typedef resolves wrongly)
     has_enums = any(x[0] == 'enum' for x in cls[5])
     boost = r.random() < 0.5
     tops = [['']] + ([[''] + home[:1]] if home else [])
